@@ -64,6 +64,22 @@ func constArray(a *ssa.Alloc) ([]byte, bool) {
 		}
 	}
 	if len(whole) == 1 {
+		if b, ok := constArrayValue(whole[0].Val); ok {
+			if _, isLit := whole[0].Val.(*ssa.UnOp); !isLit || !isAllocLoad(whole[0].Val) {
+				// copied from a constant package variable or from a parameter bound to one: constant
+				// as long as the copy itself is never written element-wise
+				for _, ref := range *a.Referrers() {
+					if ia, ok := ref.(*ssa.IndexAddr); ok {
+						for _, r2 := range *ia.Referrers() {
+							if _, isSt := r2.(*ssa.Store); isSt {
+								return nil, false
+							}
+						}
+					}
+				}
+				return b, true
+			}
+		}
 		if ld, ok := whole[0].Val.(*ssa.UnOp); ok && ld.Op == token.MUL {
 			if lit, ok := ld.X.(*ssa.Alloc); ok && lit != a {
 				for _, ref := range *a.Referrers() {
@@ -119,6 +135,115 @@ func constArray(a *ssa.Alloc) ([]byte, bool) {
 	return out, true
 }
 
+func isAllocLoad(v ssa.Value) bool {
+	ld, ok := v.(*ssa.UnOp)
+	if !ok || ld.Op != token.MUL {
+		return false
+	}
+	_, isA := ld.X.(*ssa.Alloc)
+	return isA
+}
+
+// cpEnv binds parameters of a helper being evaluated to the caller's arguments.
+var cpEnv = map[*ssa.Parameter]ssa.Value{}
+
+// constArrayValue: v is an array value known byte for byte: a load of a local
+// constant array, a load of a constant package-level array, or a parameter
+// bound (cpEnv) to one of those.
+func constArrayValue(v ssa.Value) ([]byte, bool) {
+	v = strip(v)
+	switch x := v.(type) {
+	case *ssa.UnOp:
+		if x.Op != token.MUL {
+			return nil, false
+		}
+		switch a := x.X.(type) {
+		case *ssa.Alloc:
+			return constArray(a)
+		case *ssa.Global:
+			return globalConstArray(a)
+		}
+	case *ssa.Parameter:
+		if arg, ok := cpEnv[x]; ok {
+			saved := cpEnv
+			cpEnv = map[*ssa.Parameter]ssa.Value{}
+			b, ok := constArrayValue(arg)
+			cpEnv = saved
+			return b, ok
+		}
+	}
+	return nil, false
+}
+
+var globalConstCache = map[*ssa.Global]*[]byte{}
+
+// globalConstArray: a package-level array variable that is stored exactly once,
+// by the package initialiser, with a constant composite literal, and is
+// otherwise only loaded whole (never indexed for writing, sliced or passed by
+// address).
+func globalConstArray(g *ssa.Global) ([]byte, bool) {
+	if c, ok := globalConstCache[g]; ok {
+		if c == nil {
+			return nil, false
+		}
+		return *c, true
+	}
+	globalConstCache[g] = nil
+	if _, ok := g.Type().(*types.Pointer).Elem().Underlying().(*types.Array); !ok {
+		return nil, false
+	}
+	var val []byte
+	stores, ok := 0, true
+	for fn := range theWorld.AllFunctions() {
+		if fn.Blocks == nil {
+			continue
+		}
+		home := fn
+		for home.Parent() != nil {
+			home = home.Parent()
+		}
+		if home.Pkg != g.Pkg {
+			continue
+		}
+		allInstrs(fn, func(in ssa.Instruction) {
+			uses := false
+			for _, op := range in.Operands(nil) {
+				if *op == ssa.Value(g) {
+					uses = true
+				}
+			}
+			if !uses {
+				return
+			}
+			switch x := in.(type) {
+			case *ssa.UnOp:
+				if x.Op != token.MUL {
+					ok = false
+				}
+			case *ssa.Store:
+				if x.Addr != ssa.Value(g) || fn.Name() != "init" || fn.Parent() != nil {
+					ok = false
+					return
+				}
+				stores++
+				if b, isC := constArrayValue(x.Val); isC {
+					val = b
+				} else {
+					ok = false
+				}
+			case *ssa.DebugRef:
+			default:
+				ok = false
+			}
+		})
+	}
+	if !ok || stores != 1 || val == nil {
+		return nil, false
+	}
+	globalConstCache[g] = &val
+	return val, true
+}
+
 // constPrefix: the constant bytes the []byte value x certainly starts with.
 // known=false means nothing can be said (treated as empty prefix).
 func constPrefix(x ssa.Value, seen map[ssa.Value]bool) (prefix []byte, neutral bool) {
@@ -142,6 +267,43 @@ func constPrefix(x ssa.Value, seen map[ssa.Value]bool) (prefix []byte, neutral b
 				return constPrefix(v.Call.Args[1], seen)
 			}
 			return constPrefix(v.Call.Args[0], seen)
+		}
+		// a package helper that hands back (a slice of) a constant it was given
+		if sf := staticCallee(v); sf != nil && sf.Blocks != nil && theWorld != nil && len(cpEnv) < 8 && fnPkg(sf) != nil && sf.Pkg != nil && len(sf.Params) == len(v.Call.Args) {
+			saved := cpEnv
+			env := map[*ssa.Parameter]ssa.Value{}
+			for k, val := range saved {
+				env[k] = val
+			}
+			for i, p := range sf.Params {
+				env[p] = v.Call.Args[i]
+			}
+			cpEnv = env
+			var common []byte
+			first, fail := true, false
+			for _, ret := range returnsOf(sf) {
+				if len(ret.Results) != 1 {
+					fail = true
+					break
+				}
+				p, neutral := constPrefix(ret.Results[0], map[ssa.Value]bool{})
+				if neutral {
+					continue
+				}
+				if first {
+					common, first = p, false
+					continue
+				}
+				n := 0
+				for n < len(common) && n < len(p) && common[n] == p[n] {
+					n++
+				}
+				common = common[:n]
+			}
+			cpEnv = saved
+			if !fail && !first {
+				return common, false
+			}
 		}
 		return nil, false
 	case *ssa.Phi:
@@ -203,8 +365,8 @@ func (nt *nodeTypes) classifyHashValue(fn *ssa.Function, rv ssa.Value, depth int
 	rv = strip(rv)
 	switch v := rv.(type) {
 	case *ssa.UnOp:
-		if a, ok := v.X.(*ssa.Alloc); ok && v.Op == token.MUL {
-			if b, ok := constArray(a); ok {
+		if v.Op == token.MUL {
+			if b, ok := constArrayValue(v); ok {
 				return hashClass{kind: "constant", consts: [][]byte{b}}
 			}
 		}
@@ -219,7 +381,7 @@ func (nt *nodeTypes) classifyHashValue(fn *ssa.Function, rv ssa.Value, depth int
 		if sf == nil {
 			break
 		}
-		if sf == nt.w.FuncOpt(nt.pkg, "hash") {
+		if nt.isHashPrimitive(sf) {
 			p, _ := constPrefix(v.Call.Args[0], map[ssa.Value]bool{})
 			return hashClass{kind: "digest", tag: p, input: v.Call.Args[0]}
 		}
@@ -236,6 +398,41 @@ func (nt *nodeTypes) classifyHashValue(fn *ssa.Function, rv ssa.Value, depth int
 		}
 	}
 	return hashClass{kind: "unknown", why: fmt.Sprintf("return value %s is not a constant, a hash() digest or a delegated hashCode", valueName(rv))}
+}
+
+// isHashPrimitive: the package's digest function — `hash`, or any package-level
+// function of one []byte/string parameter returning the digest type that is
+// not itself built on hashCode (a variant of the primitive for another input
+// type, e.g. one that hashes a string without copying it).
+func (nt *nodeTypes) isHashPrimitive(sf *ssa.Function) bool {
+	if sf == nil {
+		return false
+	}
+	if sf == nt.w.FuncOpt(nt.pkg, "hash") {
+		return true
+	}
+	if fnPkg(sf) != nt.pkg.Pkg || sf.Signature.Recv() != nil || sf.Blocks == nil || len(sf.Params) != 1 || sf.Signature.Results().Len() != 1 {
+		return false
+	}
+	dig := nt.method(nt.names[0], "hashCode").Signature.Results().At(0).Type()
+	if !types.Identical(sf.Signature.Results().At(0).Type(), dig) || !isTextType(sf.Params[0].Type()) {
+		return false
+	}
+	prim := true
+	allInstrs(sf, func(in ssa.Instruction) {
+		if c, ok := in.(ssa.CallInstruction); ok {
+			if c.Common().IsInvoke() {
+				prim = false
+			} else if callee := staticCallee(c); callee != nil && fnPkg(callee) == nt.pkg.Pkg && !nt.isHashPrimitive0(callee) {
+				prim = false
+			}
+		}
+	})
+	return prim
+}
+
+func (nt *nodeTypes) isHashPrimitive0(sf *ssa.Function) bool {
+	return sf == nt.w.FuncOpt(nt.pkg, "hash")
 }
 
 // ruleHashDom: per-type domain separation of hash inputs. only: restrict to
@@ -357,6 +554,10 @@ func ruleHashCover(w *World, r *Report, nt *nodeTypes) {
 							if ex, ok := strip(rv).(*ssa.Extract); ok && ex.Index == 2 && rangesOver(ex, recv) {
 								hasVal = true
 							}
+							// the member reached through a local container filled from the receiver
+							if _, isIface := rv.Type().Underlying().(*types.Interface); isIface && d.HasRoot(rv, recv) {
+								hasVal = true
+							}
 						}
 					}
 				case *ssa.Extract:
@@ -369,6 +570,20 @@ func ruleHashCover(w *World, r *Report, nt *nodeTypes) {
 					switch name := calleeFullName(c); {
 					case strings.HasPrefix(name, "maps.Keys"), strings.HasPrefix(name, "golang.org/x/exp/maps.Keys"):
 						hasKey = true
+					}
+					// a package helper that returns the (sorted) keys of the map it is given
+					if g := staticCallee(c); g != nil && g.Blocks != nil && fnPkg(g) == nt.pkg.Pkg && len(g.Params) == 1 {
+						dg := NewDeriv(w, g)
+						for _, ret := range returnsOf(g) {
+							if len(ret.Results) != 1 {
+								continue
+							}
+							for x := range dg.Visited(ret.Results[0]) {
+								if ex, ok := x.(*ssa.Extract); ok && ex.Index == 1 && rangesOver(ex, g.Params[0]) {
+									hasKey = true
+								}
+							}
+						}
 					}
 				}
 			}
@@ -467,15 +682,27 @@ func ruleTypeGuard(w *World, r *Report, nt *nodeTypes) {
 		// delegating Equals (jsonArray): every non-false return is another Equals
 		var nonFalse []*ssa.BasicBlock
 		delegated := true
+		okResults := 0
 		for _, ret := range returnsOf(fn) {
 			if b, ok := constBool(ret.Results[0]); ok && !b {
 				continue
+			}
+			// `_, ok := n.(T); return ok`: true exactly when the assertion succeeded
+			if ex, ok := ret.Results[0].(*ssa.Extract); ok && ex.Index == 1 {
+				if ta, ok := ex.Tuple.(*ssa.TypeAssert); ok && ta.CommaOk && types.Identical(ta.AssertedType, own) && d.HasRoot(ta.X, arg) {
+					okResults++
+					continue
+				}
 			}
 			nonFalse = append(nonFalse, ret.Block())
 			c, ok := ret.Results[0].(*ssa.Call)
 			if !ok || !(c.Call.IsInvoke() && c.Call.Method.Name() == "Equals") {
 				delegated = false
 			}
+		}
+		if len(nonFalse) == 0 && okResults > 0 {
+			r.Ok(rule, key, pos, "the result is the outcome of the assertion that the argument has the receiver's own type")
+			continue
 		}
 		if len(nonFalse) == 0 {
 			r.Bad(rule, key, pos, "Equals can never return true")
@@ -501,9 +728,24 @@ func ruleTypeGuard(w *World, r *Report, nt *nodeTypes) {
 						continue
 					}
 					for _, bb := range fn.Blocks {
-						cond, tE, _, ok := branchEdges(bb)
-						if ok && cond == ssa.Value(ex) {
-							cut[tE] = true
+						cond, tE, fE, ok := branchEdges(bb)
+						if !ok {
+							continue
+						}
+						neg := false
+						for {
+							u, isU := cond.(*ssa.UnOp)
+							if !isU || u.Op != token.NOT {
+								break
+							}
+							cond, neg = u.X, !neg
+						}
+						if cond == ssa.Value(ex) {
+							if neg {
+								cut[fE] = true
+							} else {
+								cut[tE] = true
+							}
 						}
 					}
 				}
